@@ -308,9 +308,10 @@ func checkC31(c *Ctx, r *Report) {
 			// paths taking the "status == 409" true edge
 			conflict := false
 			instrsOf(hc, func(in ssa.Instruction) {
-				if b, ok := in.(*ssa.BinOp); ok && b.Op == token.EQL && mentionsCall(b.X, "(*utils/handler.Error).GetStatus") {
+				if b, ok := in.(*ssa.BinOp); ok && (b.Op == token.EQL || b.Op == token.NEQ) && mentionsCall(b.X, "(*utils/handler.Error).GetStatus") {
 					if k, ok := intConst(b.Y); ok && k == 409 {
-						for _, e := range condEdges(b, true) {
+						// the edge on which status == 409 holds, in either spelling
+						for _, e := range condEdges(b, b.Op == token.EQL) {
 							if p.hasEdge(e) {
 								conflict = true
 							}
